@@ -89,6 +89,19 @@ CHECKS['C15'] = dict(technique='runtime monitoring: inverse-function oracle (dec
                   'ANM paths and ciphered mission lines; the decompiled literal must be identical, unencodable or oversize strings must be rejected with an error.',
              note='Repertoire = characters on which python shift_jis and cp932 agree and round-trip (backslash/tilde excluded). With a pending furigana carry-over (furibug) only survival is judged, not the size limit.',
              design='3/C15')
+CHECKS['C13'] = dict(technique='runtime monitoring: reference-model oracle (independent label arithmetic) over times read from compiled files by an independent layout parser',
+             text='Exploration. Label/instruction sequences (absolute, relative, negative, zero, repeated, constant-expression, const-item and wrapping labels; nested in blocks, if/else, loop, times) are compiled '
+                  'for ANM, MSG, STD and old ECL; the time stored on every marker instruction must equal the model; the decompiled text, read back with the same model, must reproduce the stored times, and '
+                  'recompiling must reproduce them again.',
+             note='Only times inside the field range of the format are judged here (C03 covers the rest).',
+             design='3/C13')
+CHECKS['C14'] = dict(technique='runtime monitoring: exhaustive enumeration of masks per flag set through the real DiffFlagDefs + exactly-one coverage monitor over emitted instruction copies',
+             category='exploration',
+             text='Part 1: for sampled flag-definition sets (default digits, shipped sets, generated renamings / default-on bits) all 256 masks are printed and parsed back (real code), cross-checked by an '
+                  'independent label parser, and pushed end to end through decompile + recompile of a harness-written ECL file with masks 0..255. Part 2: statements with 1-3 (possibly nested) switches with holes '
+                  'under every kind of label are compiled; for every difficulty the emitted copies must satisfy the exactly-one / right-values / default-on-bits conditions.',
+             note='Exhaustive only in the mask dimension; flag sets and statements are sampled.',
+             design='3/C14')
 WIP = {}  # property -> reason (not claimed)
 
 def main():
